@@ -159,12 +159,6 @@ func NewPeer(
 		if err != nil {
 			return nil, err
 		}
-		p.updateSub, err = p.bus.Subscribe(event.UpdateName, event.ReplicatorName)
-		if err != nil {
-			return nil, err
-		}
-		log.Info("Starting internal broadcaster for pubsub network")
-		go p.handleMessageLoop()
 	}
 
 	p.server, err = newServer(p, options.GRPCDialOptions...)
@@ -176,6 +170,15 @@ func NewPeer(
 	bswapnet := bsnet.NewFromIpfsHost(h)
 	bswap := bitswap.New(ctx, bswapnet, ddht, bs, bitswap.WithPeerBlockRequestFilter(p.server.hasAccess))
 	p.blockService = blockservice.New(bs, bswap)
+
+	// Update events drive the pushes to replicators as well as the pubsub broadcast, so they
+	// are handled whether or not pubsub is enabled (publishLog is a no-op without pubsub).
+	p.updateSub, err = p.bus.Subscribe(event.UpdateName, event.ReplicatorName)
+	if err != nil {
+		return nil, err
+	}
+	log.Info("Starting internal broadcaster for replicators and the pubsub network")
+	go p.handleMessageLoop()
 
 	p2pListener, err := gostream.Listen(h, corenet.Protocol)
 	if err != nil {
